@@ -180,11 +180,27 @@ def share_idiom(prog, chk, rid, fams=tuple(FAMILIES), floor=10):
                     continue
                 rt = q.no_casts(C.norm(f, w.rhs, {}, defs))
                 raw = q.no_casts(f.r(w.rhs))
-                fresh = ("new char[]" in rt) or rt.startswith("&") or q.is_zero(f, w.rhs) or "newData" in raw
                 where = f.where(w.node) if w.node is not None else "%s:%s" % (f.file, f.line)
-                if not fresh:
+                # the stored value may be a local assigned on several branches: each definition that reaches the store is a case
+                cases = [(None, w.rhs)]
+                rn = f.nodes[f.strip(w.rhs)]
+                if rn["k"] == "DeclRefExpr" and rn["ref"].get("dk") == "local" and q.single_def(f, rn["ref"]["id"], defs) is None:
+                    dl = [x for x in defs.get(rn["ref"]["id"], []) if x[2] is not None and x[0] != "addr"]
+                    dpos = {id(x): f.node_pos(x[1]) for x in dl}
+                    cases = []
+                    for x in dl:
+                        others = set(p_ for k_, p_ in dpos.items() if k_ != id(x) and p_ is not None)
+                        if dpos[id(x)] is not None and f.find_path(dpos[id(x)], {w.pos}, avoid=others - {w.pos}) is not None:
+                            cases.append((dpos[id(x)], x[2]))
+                    if not cases:
+                        cases = [(None, w.rhs)]
+                for dpos_, rhs_ in cases:
+                    rt = q.no_casts(C.norm(f, rhs_, {}, defs))
+                    fresh = ("new char[]" in rt) or rt.startswith("&") or q.is_zero(f, rhs_)
+                    if fresh:
+                        continue
                     # candidates naming the same block
-                    names = {rt, raw, "this->" + ptr}
+                    names = {rt, raw, q.no_casts(f.r(rhs_)), "this->" + ptr}
                     ipos = q.pos_of(f, [i for i, x in incs if x in names or any(same_obj(x, nm) for nm in names)])
                     # edges on which the block is null / not owned
                     skip = set()
@@ -195,7 +211,12 @@ def share_idiom(prog, chk, rid, fams=tuple(FAMILIES), floor=10):
                         kt = fin.key(f, c)
                         if any(kt == nm or kt == nm + "->ref" for nm in names):
                             skip.add((b["succ"][1], 0))
-                    if C.paths_all_pass(f, w.pos, ipos | skip) and ipos:
+                    if dpos_ is None:
+                        good = C.paths_all_pass(f, w.pos, ipos | skip) and bool(ipos)
+                    else:
+                        od = set(p_ for p_, _r in cases if p_ is not None and p_ != dpos_)
+                        good = bool(ipos) and f.find_path(dpos_, {f.exit_pos()}, avoid=ipos | skip | od) is None
+                    if good:
                         chk.ok(rid, f, "share of %s counted" % rt[:40], where, "Atomic::increment on every path through the store", evals=2)
                     else:
                         chk.bad(rid, f, "share-without-increment:" + rt.replace("this->", "")[:40], where,
@@ -317,6 +338,11 @@ def clone_into_fresh(prog, chk, rid, fams=("Variant", "Xml::Variant"), floor=10)
                 n = f.nodes[pn]
                 tgt = f.strip(n["place"][0])
                 t = q.no_casts(C.norm(f, tgt, {}, defs))
+                if f.nodes[tgt]["k"] == "DeclRefExpr" and t == f.nodes[tgt]["ref"]["n"]:
+                    # a local assigned on several branches: take the definition that reaches the construction
+                    rd = q.reaching_def(f, f.nodes[tgt]["ref"]["id"], pn, defs)
+                    if rd is not None:
+                        t = q.no_casts(C.norm(f, rd, {}, defs))
                 where = f.where(pn)
                 m = re.match(r"^\((.+) \+ 1\)$", t)
                 base = m.group(1) if m else None
@@ -413,11 +439,16 @@ def exclusive_guard(prog, chk, rid, fams=("String", "Variant", "Xml::Variant"), 
             events = []
             # (a) mutable accessors returning the current payload
             if f.short.startswith("to") and f.d["ret"].endswith("&") and not f.d["ret"].startswith("const"):
+                # every place where the current payload is taken as a mutable T* (returned directly or through a local)
                 for i, n in enumerate(f.nodes):
-                    if n["k"] == "ReturnStmt" and n["c"]:
-                        t = q.no_casts(f.r(n["c"][0]))
-                        if t == "*(this->data + 1)":
-                            events.append((i, f.d["ret"].rstrip(" &"), "returns the current payload mutable"))
+                    if n["k"] == "BinaryOperator" and n.get("op") == "+" and len(n["c"]) == 2 and q.no_casts(f.r(n["c"][0])) == "this->data" \
+                       and fin.eval_expr(f, n["c"][1], {}) == 1 and f.node_pos(i) is not None:
+                        pc = f.up(i)
+                        while pc is not None and f.nodes[pc]["k"] in ("ParenExpr", "ImplicitCastExpr"):
+                            pc = f.up(pc)
+                        if pc is not None and f.nodes[pc]["k"] == "CStyleCastExpr" and f.nodes[pc].get("t", "").startswith("const "):
+                            continue          # read-only view of the payload (source of a clone)
+                        events.append((i, f.d["ret"].rstrip(" &"), "returns the current payload mutable"))
             # (b) assignment through the current payload
             for s in q.stores(f):
                 t = q.no_casts(f.r(s.lhs))
